@@ -23,7 +23,9 @@ from ..base import Goal
 FUNCTIONS = ['dd.bdd.BDD.dump', 'dd.bdd.BDD._dump_bdd', 'dd.bdd.BDD.descendants',
              'dd.bdd.BDD._descendants', 'dd.bdd.BDD.load', 'dd.bdd.BDD._load_pickle',
              'dd.bdd.BDD._load', 'dd.bdd.BDD._dump_manager', 'dd.bdd.BDD._load_manager',
-             'dd._utils._map_container', 'dd._utils._values_of', 'dd.bdd.BDD.add_var']
+             'dd._utils._map_container', 'dd._utils._map_values', 'dd._utils._values_of', 'dd.bdd.BDD.add_var',
+             'dd.autoref.BDD.dump', 'dd.autoref.BDD.load', 'dd.autoref.BDD._load_pickle',
+             'dd.autoref.BDD._wrap', 'dd.autoref.Function.__init__']
 STUBS = ['open / pickle.dump / pickle.load in dd.bdd -> in-memory hand-over of the dumped object',
          'receiving manager (variant declared): find_or_add / ite -> contracts (K1, K3/K4)']
 CUTS = ['on-disk pickle byte format']
@@ -54,7 +56,7 @@ class MemPickle:
 
 
 VARIANTS = ['fresh_list', 'fresh_dict', 'fresh_rootless', 'declared_same', 'declared_other_levels',
-            'declared_other_nolevels', 'manager']
+            'declared_other_nolevels', 'manager', 'autoref_fresh_list', 'autoref_fresh_dict']
 
 
 class Harness:
@@ -67,6 +69,7 @@ class Harness:
 
     def install(self):
         self.B = base.import_dd('dd.bdd')
+        self.A = base.import_dd('dd.autoref')
         self.U = base.import_dd('dd._utils')
         self.sh = base.Shadow()
         base.std_shadows(self.sh, self.B)
@@ -132,7 +135,18 @@ class Harness:
             return dict(outcome='loaded:manager', goals=res, witness=base.witness(extract),
                         expect=dict(outcome='returned'))
 
-        if variant.startswith('fresh'):
+        asrc = adst = None
+        if variant.startswith('autoref'):
+            from .k6_autoref_ops import make_autoref
+            for k in ms.ids:
+                c.assume(z3.Select(ms.st0.RP, k) == z3.Select(ms.st0.P, k))
+                c.assume(z3.Select(ms.st0.RF, k) >= 0)
+            dst = nodel_class(self.B)()
+            asrc, adst = make_autoref(self.A, src), make_autoref(self.A, dst)
+            f1, f2 = self.A.Function(SymInt(u1), asrc), self.A.Function(SymInt(u2), asrc)
+            roots = [f1, f2] if variant == 'autoref_fresh_list' else dict(f=f1, g=f2)
+            levels = True
+        elif variant.startswith('fresh'):
             dst = nodel_class(self.B)()
             roots = ([SymInt(u1), SymInt(u2)] if variant == 'fresh_list' else
                      dict(f=SymInt(u1), g=SymInt(u2)) if variant == 'fresh_dict' else None)
@@ -156,8 +170,17 @@ class Harness:
             levels = variant != 'declared_other_nolevels'
         exc = out = None
         try:
-            src.dump('f.p', roots)
-            out = dst.load('f.p', levels=levels)
+            if asrc is not None:
+                asrc.dump('f.p', roots)
+                out = adst.load('f.p', levels=levels)
+                ok_wrapped = all(isinstance(x, self.A.Function) and x.bdd is adst
+                                 for x in (out.values() if isinstance(out, dict) else out))
+                keep_handles = out                       # the handles stay alive while counts are judged
+                out = ({k: x.node for k, x in out.items()} if isinstance(out, dict)
+                       else [x.node for x in out])
+            else:
+                src.dump('f.p', roots)
+                out = dst.load('f.p', levels=levels)
         except Exception as e:
             exc = e
         if variant == 'declared_other_levels':
@@ -182,7 +205,9 @@ class Harness:
             goals.append(Goal('same_container_shape',
                               z3.BoolVal(isinstance(out, list) and len(out) == 2)))
             pairs = list(zip([u1, u2], out))
-        if variant.startswith('fresh'):
+        if asrc is not None:
+            goals.append(Goal('loaded_roots_are_Functions_of_the_receiving_manager', z3.BoolVal(ok_wrapped)))
+        if variant.startswith('fresh') or asrc is not None:
             # the receiving manager is concrete on this path
             succ = {int(k): tuple(None if x is None else int(x) for x in t)
                     for k, t in dst._succ.items()}
@@ -209,7 +234,11 @@ class Harness:
             fake._level_to_var = dict(dst._level_to_var)
             fake._ite_table = {}
             fake._min_free = 0
-            bad = concrete.check_inv(fake, {1: 1})
+            held = {1: 1}
+            if asrc is not None:
+                for uu, r in pairs:
+                    held[abs(int(r))] = held.get(abs(int(r)), 0) + 1      # the returned handles
+            bad = concrete.check_inv(fake, held)
             goals.append(Goal('receiving_manager_canonical_counts_exact', z3.BoolVal(not bad)))
         else:
             for j, (uu, r) in enumerate(pairs):
@@ -267,6 +296,38 @@ def replay(case):
                                 detail=f'node {k} denotes another function after the manager round trip', observed=obs)
             return dict(violates=False, detail='ok', observed=obs)
         src = concrete.install(cs, B)
+        if variant.startswith('autoref'):
+            import dd.autoref as A
+            from .k6_autoref_ops import make_autoref
+            for k in src._succ:
+                src._ref[k] += 1
+            dst = nodel_class(B)()
+            asrc, adst = make_autoref(A, src), make_autoref(A, dst)
+            f1, f2 = A.Function(a['u1'], asrc), A.Function(a['u2'], asrc)
+            rts = [f1, f2] if variant == 'autoref_fresh_list' else dict(f=f1, g=f2)
+            try:
+                asrc.dump(fn, rts)
+                out = adst.load(fn)
+            except Exception as e:
+                return dict(violates=True, key='pickle/autoref-raises', detail=repr(e), observed=obs)
+            vals = list(out.values()) if isinstance(out, dict) else list(out)
+            if (isinstance(rts, dict) and (not isinstance(out, dict) or sorted(out) != ['f', 'g'])) or \
+               not all(isinstance(x, A.Function) and x.bdd is adst for x in vals) or len(vals) != 2:
+                return dict(violates=True, key='pickle/autoref-container', detail=str(out), observed=obs)
+            want = [a['u1'], a['u2']]
+            got = [out['f'], out['g']] if isinstance(out, dict) else list(out)
+            for uu, h in zip(want, got):
+                if concrete.tt_named(dst, h.node, names) != concrete.tt_named(src, uu, names):
+                    return dict(violates=True, key='pickle/wrong-function',
+                                detail=f'autoref dump/load: root {uu} loaded as {h.node}', observed=obs)
+            held = {1: 1}
+            for h in got:
+                held[abs(h.node)] = held.get(abs(h.node), 0) + 1
+            bad = concrete.check_inv(dst, held)
+            if bad:
+                return dict(violates=True, key='pickle/counts:' + bad[0].split()[0],
+                            detail='autoref dump/load: ' + '; '.join(bad[:3]), observed=obs)
+            return dict(violates=False, detail='ok', observed=obs)
         if variant.startswith('fresh'):
             dst = nodel_class(B)()
             roots = ([a['u1'], a['u2']] if variant == 'fresh_list' else
